@@ -60,6 +60,9 @@
 (* says nothing about a utilisation above 100 %: any band 0..10 is         *)
 (* admitted there (membership in Discrete(11) is still demanded by C02).   *)
 (*                                                                         *)
+(* LEAVES WITH MEMORY: NMNE (previous totals in truth.nmInPrev/nmOutPrev) and the folder health under             *)
+(* file_system_requires_scan (truth.last / truth.scanned, see FolderEnc).                                          *)
+(*                                                                         *)
 (* NOT PINNED BY THE DOCUMENTATION (sets larger than a singleton):         *)
 (*  - band at an exact ninth of the capacity (k or k+1) and above 100 %;   *)
 (*  - NMNE: whether the count is cumulative over the episode or the number *)
@@ -86,7 +89,7 @@ Cfg0 == [scan |-> FALSE, incAccess |-> FALSE, incNmne |-> FALSE, capNmne |-> FAL
          nIp |-> 0, nWc |-> 0, nPort |-> 0, nProto |-> 0, nRules |-> 0, slot |-> 0,
          nSvc |-> 0, nApp |-> 0, nFold |-> 0, nNic |-> 0, nFiles |-> 0, nPorts |-> 0]
 Truth0 == [exists |-> FALSE, nodeOn |-> FALSE, op |-> 0, actual |-> 0, visible |-> 0,
-           count |-> 0, count2 |-> 0, enabled |-> FALSE,
+           count |-> 0, count2 |-> 0, enabled |-> FALSE, scanned |-> FALSE, last |-> 0,
            inN |-> 0, inD |-> 1, outN |-> 0, outD |-> 1,
            nmIn |-> 0, nmInPrev |-> 0, nmOut |-> 0, nmOutPrev |-> 0,
            local |-> FALSE, remote |-> 0,
@@ -137,8 +140,18 @@ FileEnc(c, t) ==
     [health_status |-> {IF Live(t) THEN Health(c, t) ELSE 0}]
     @@ (IF c.incAccess THEN [num_access |-> {IF Live(t) THEN Cat(t.count, c.lo, c.med, c.hi) ELSE 0}] ELSE Nil)
 
+(* A FOLDER under file_system_requires_scan is a small state machine (the maintainers' pinned unit test         *)
+(* TestFileSystemRequiresScan::test_folder_require_scan fixes the reading): the observation shows the folder's     *)
+(* visible status as it was at the last step in which THIS observation saw a folder scan complete                  *)
+(* (`scanned' = the folder's scanned-this-step flag at observation time), and 0 before it has seen any.            *)
+(* `t.last' is that memory before the observation, FolderNext the memory after it.  A change of the visible        *)
+(* status that does not come with a completed folder scan (a node OS scan) is not tracked.  While the folder does  *)
+(* not exist or its node is not ON the observation reads default and sees nothing (memory unchanged).              *)
+FolderHealth(c, t) == IF c.scan THEN (IF t.scanned THEN t.visible ELSE t.last) ELSE t.actual
+FolderNext(c, t) == IF Live(t) /\ t.scanned THEN t.visible ELSE t.last
+
 FolderEnc(c, t) ==
-    [health_status |-> {IF Live(t) THEN Health(c, t) ELSE 0}, n_files |-> {c.nFiles}]
+    [health_status |-> {IF Live(t) THEN FolderHealth(c, t) ELSE 0}, n_files |-> {c.nFiles}]
 
 NmneSet(total, prev, c) ==
     {Cat(total, c.lo, c.med, c.hi)} \cup (IF total >= prev THEN {Cat(total - prev, c.lo, c.med, c.hi)} ELSE {})
